@@ -268,6 +268,9 @@ class Engine:
 def _json_default(o):
     if isinstance(o, bytes):
         return {"__b64__": __import__("base64").b64encode(o).decode()}
+    import datetime as _d
+    if isinstance(o, _d.datetime):
+        return {"__dt__": o.isoformat()}
     if isinstance(o, (set, frozenset, tuple)):
         return sorted(o) if isinstance(o, (set, frozenset)) else list(o)
     raise TypeError(type(o))
@@ -278,6 +281,8 @@ def unjson(o):
     if isinstance(o, dict):
         if set(o) == {"__b64__"}:
             return __import__("base64").b64decode(o["__b64__"])
+        if set(o) == {"__dt__"}:
+            return __import__("datetime").datetime.fromisoformat(o["__dt__"])
         return {k: unjson(v) for k, v in o.items()}
     if isinstance(o, list):
         return [unjson(x) for x in o]
